@@ -112,6 +112,11 @@ def exec (s : St α) : Op → List (Option α) × St α
   | .untilExhausted => let r := untilExhausted (ueFuel s) s; (r.1.map some, r.2)
   | .look => ([], s)
 
+/-- what a client of `next_frames().nth(k)` sees of the `k+1` iterator steps that `Iterator::nth`
+    stands for (std: `advance_by(k)` then `next()`; popping an empty ring buffer has no effect, so the
+    steps after the first `None` change nothing): only the last result -/
+def nthView (o : Obs α) : Obs α := { o with out := [o.out.getLast?.join] }
+
 def step (s : St α) (o : Op) : Obs α × St α :=
   let r := exec s o
   (look r.2 r.1, r.2)
